@@ -416,6 +416,44 @@ def repl_memo():
     raise ExtractError("run_with_vm_and_opt: cannot tell whether the session record is put back when loading fails")
 
 
+def repl_memo_on_reject():
+    """driver/src/api/repl.rs: when the input's imports LOADED but the input is then rejected (type inference, compiler:
+    every `?` / `return` after the load), is the session's record back in the VM by then?  True iff on the success path of
+    the load the first set_repl_session(..) comes before the first later exit."""
+    src = strip_comments(rd("driver/src/api/repl.rs"))
+    body = re.sub(r'"(?:[^"\\]|\\.)*"', '""', fn_body(src, "run_with_vm_and_opt"))
+    call = re.search(r"\bload_modules_with_memo\s*\(", body)
+    if not call:
+        raise ExtractError("run_with_vm_and_opt: load_modules_with_memo not found")
+    depth, j = 0, call.end() - 1
+    while j < len(body):
+        if body[j] == "(":
+            depth += 1
+        elif body[j] == ")":
+            depth -= 1
+            if depth == 0:
+                break
+        j += 1
+    after = body[j + 1:]
+    before = body[:call.start()]
+    if re.search(r"\bmatch\s*$", before.rstrip()):
+        k = after.index("{")
+        inner, end = block_at(after, k, "match on the load result")
+        oks = [b for p_, b in arms(inner) if p_.startswith("Ok")]
+        if any("set_repl_session" in b for b in oks):
+            return True
+        succ = after[end:]
+    elif re.match(r"\s*\?", after):
+        succ = after[re.match(r"\s*\?", after).end():]
+    else:
+        succ = after        # `let r = load(..); ...; r?`: the `r?` is an exit as well, a set before it counts
+    sets = [m.start() for m in re.finditer(r"set_repl_session\s*\(", succ)]
+    exits = [m.start() for m in re.finditer(r"\?|\breturn\b", succ)]
+    if not sets:
+        return False
+    return not exits or sets[0] < exits[0]
+
+
 def unfinished_forgotten():
     """compile.rs: a module that was registered but whose top level did not complete is removed from
     loaded_modules again, under a flag that is set only after the body ran and its globals were synced"""
@@ -473,5 +511,7 @@ def gen_modules_tables():
              "Inductive grant := GExports | GSymbols | GNone.\n"
              + tbl("entry_grant", entry_t) + tbl("module_grant", module_t)
              + "\n(* run_with_vm: the session's loaded-module record is put back when an input's imports fail *)\n"
-             f"Definition memo_restored_on_error : bool := {b(restored)}.\n")
+             f"Definition memo_restored_on_error : bool := {b(restored)}.\n"
+             "(* ... and when the imports loaded but the input is then rejected by inference / the compiler *)\n"
+             f"Definition memo_restored_on_reject : bool := {b(repl_memo_on_reject())}.\n")
     write_if_changed("ModulesTables.v", text)
